@@ -321,7 +321,7 @@ Definition RC_REFUSED : N := 5. Definition RC_NOTZONE : N := 10.
 Record umsg := mk_umsg { u_rcode : N; u_answer : list rr; u_ns : list rr; u_extra : list rr }.
 
 Inductive disposition :=
-| DAnswer (answer : list rr)               (* Resolver.answer: Answer as sent; clearAdditional drops Ns and Extra *)
+| DAnswer (answer : list rr)               (* Resolver.answer is entered with this Answer section; clearAdditional drops Ns and Extra *)
 | DNegative (ns extra : list rr)           (* Resolver.authority: message as sent (Ns filtered when an NS set rode along) *)
 | DReferral (i : dinfo)                    (* processDelegation after validReferral *)
 | DRejected                                (* invalid referral: errParentDetection -> SERVFAIL *)
@@ -369,26 +369,32 @@ Fixpoint scan_answer (q : question) (answer : list rr) (pending : option name) :
 Definition chase_applies (q : question) (rcode : N) : bool :=
   negb ((q_type q =? T_CNAME) || (q_type q =? T_DS)) && negb (rcode =? RC_NXDOMAIN).
 
+(* Resolver.answer begins with resp.Answer = dnsutil.FilterRRsToZone(resp.Answer, zone): records
+   owned outside the zone whose servers answered are dropped before anything else looks at them *)
+Definition in_zone_answer (auth : name) (a : list rr) : list rr := filter (fun r => is_sub auth (rr_owner r)) a.
+
+Definition relay_rcode (m : umsg) : N :=
+  if (u_rcode m =? RC_SERVFAIL) || (u_rcode m =? RC_NXDOMAIN) then RC_OK else u_rcode m.
+
 (* Answer-section records of the upstream message that the client is handed for this question
    when no alias chase is started (exact), and an upper bound otherwise *)
 Definition relayed_answer (auth : name) (q : question) (m : umsg) : list rr :=
   match dispose auth q m with
   | DAnswer a =>
-      let rc := if (u_rcode m =? RC_SERVFAIL) || (u_rcode m =? RC_NXDOMAIN) then RC_OK else u_rcode m in
-      if chase_applies q rc then
-        match scan_answer q a None with
+      let a' := in_zone_answer auth a in
+      if chase_applies q (relay_rcode m) then
+        match scan_answer q a' None with
         | ScanLoop => []
-        | _ => a
+        | _ => a'
         end
-      else a
+      else a'
   | _ => []
   end.
 Definition relay_exact (auth : name) (q : question) (m : umsg) : bool :=
   match dispose auth q m with
   | DAnswer a =>
-      let rc := if (u_rcode m =? RC_SERVFAIL) || (u_rcode m =? RC_NXDOMAIN) then RC_OK else u_rcode m in
-      if chase_applies q rc then
-        match scan_answer q a None with ScanChase _ => false | _ => true end
+      if chase_applies q (relay_rcode m) then
+        match scan_answer q (in_zone_answer auth a) None with ScanChase _ => false | _ => true end
       else true
   | _ => true
   end.
@@ -412,14 +418,14 @@ Definition referral_glue (ipv6 : bool) (local : list ipaddr) (level : nat) (auth
 
 Inductive dstep :=
 | StepUncached (child : name)   (* processDelegation, delegation not cached: rs.level = CountLabel(child) *)
-| StepCached (child : name)     (* resolveWithCachedNameservers: rs.level++ *)
+| StepCached (child : name)     (* resolveWithCachedNameservers: rs.level++, raised to CountLabel(child) *)
 | StepMinimize.                 (* a minimised name produced no cut: rs.level++, same servers *)
 
 Definition descent_step (st : name * nat) (s : dstep) : name * nat :=
   let '(zone, level) := st in
   match s with
   | StepUncached child => (child, length child)
-  | StepCached child => (child, S level)
+  | StepCached child => (child, Nat.max (S level) (length child))   (* rs.level++; if rs.level < n { rs.level = n } *)
   | StepMinimize => (zone, S level)
   end.
 
@@ -427,12 +433,13 @@ Definition descent_step (st : name * nat) (s : dstep) : name * nat :=
 Definition descent_start (zone : name) : name * nat := (zone, length zone).
 Definition descent (zone : name) (steps : list dstep) : name * nat := fold_left descent_step steps (descent_start zone).
 
-(* the repair proposed in props/C07/fix.patch: the cached descent takes the deeper of the two *)
-Definition descent_step_fixed (st : name * nat) (s : dstep) : name * nat :=
+(* the code before commit 767eb6f: the cached descent only incremented the level, and the
+   Answer section was relayed as sent (kept for the regression examples in Proofs_examples.v) *)
+Definition descent_step_old (st : name * nat) (s : dstep) : name * nat :=
   let '(zone, level) := st in
   match s with
   | StepUncached child => (child, length child)
-  | StepCached child => (child, Nat.max (S level) (length child))
+  | StepCached child => (child, S level)
   | StepMinimize => (zone, S level)
   end.
 
